@@ -354,6 +354,26 @@ def judge(case, out):
                     )
                 else:
                     info['reenc_not_required_and_failed'] = info.get('reenc_not_required_and_failed', 0) + 1
+    rp = out.get('repair')
+    if rp:
+        # differential: the second pairing of the same two devices (new connection, same configuration and answers)
+        # has to end the way the first one did, on both sides, and leave the stores agreeing on the new keys
+        first = (out['pair_result'], [(e[0], e[1] if e[0] == 'failed' else None) for e in out['events']['i']][:1], [(e[0], e[1] if e[0] == 'failed' else None) for e in out['events']['r']][:1])
+        second = (rp['pair_result'], rp['events']['i'][:1], rp['events']['r'][:1])
+        info['second_pairings'] = 1
+        if rp['handle_reused']:
+            info['second_pairing_on_reused_handle'] = 1
+        if rp['hang'] or second != first:
+            bad(
+                'second_pairing_differs',
+                {'sc': bool(ini['sc'] and rsp['sc']), 'hang': bool(rp['hang']), 'initiator': (rp['events']['i'] or [[None]])[0][0], 'responder': (rp['events']['r'] or [[None]])[0][0]},
+                f'pairing a second time on a new connection (connection handle {"re" if rp["handle_reused"] else "not re"}used): first pairing ended {first}, second {second}{" (never concluded)" if rp["hang"] else ""}',
+            )
+        elif rp['keys']['i'] and rp['keys']['r'] and ini['bond'] and rsp['bond']:
+            for me in ('i', 'r'):
+                stv = list(rp['stores'][me].values())
+                if len(stv) != 1 or stv[0] != rp['keys'][me][0]:
+                    bad('keys_not_stored', {'side': me, 'pairing': 'second'}, f'{me}: after the second pairing its key store holds {list(rp["stores"][me])} which {"differs from" if stv else "lacks"} the keys it reported')
     if out['loop_exceptions']:
         info['runs_with_loop_exceptions'] = 1
     wire_sig = tuple(sorted({(a, c) for a, c in out['wire']}))
@@ -636,6 +656,10 @@ def run(ctx: core.Context) -> int:
         for name in REP_CELLS:
             c = rep_case(name, seed)
             c['store'] = 'json'
+            cases.append(c)
+        for name in REP_CELLS:  # pair, disconnect, reconnect, pair again
+            c = rep_case(name, seed)
+            c['repair'] = True
             cases.append(c)
         run_batch(ctx, 'table', cases)
         ctx.sub('table').notes.extend(notes)
